@@ -54,6 +54,12 @@ def rshape_d(rng):
         return rng.choice(["M%s,%s h%s v%s z l%s,%s h%s v-%s z" % (x, y, a, a, a, a, a, a),
                            "M%s,%s l%s,0 l0,%s z l0,%s l%s,0 z" % (x, y, a, a, a, a),
                            "M%s,%s h%s v%s h-%s Z L%s,%s L%s,%s Z" % (x, y, a, a, a, x + a, y + a, x + 2 * a, y)])
+    if k < 0.11:
+        # an open subpath followed by a moveto to exactly its end point (or its start point): two contours, each closed by
+        # its own implicit line, not one
+        a, b = rpoly(rng, rng.choice([3, 4])), rpoly(rng, rng.choice([3, 4]))
+        join = a[-1] if rng.random() < 0.7 else a[0]
+        return poly_d(a, close=False) + " " + poly_d([join] + b[1:], close=rng.random() < 0.3)
     if k < 0.25:
         return poly_d(rpoly(rng))
     if k < 0.4:
